@@ -47,6 +47,9 @@ type c05Scenario struct {
 	Txns     []c05Txn // one thread each
 	Queriers int
 	Mmap     bool
+	// Staggered: spawn order txn0, q0, txn1, q1, txn2, ... instead of all transactions first
+	Staggered    bool
+	ThoroughOnly bool
 }
 
 var c05Series = map[string]labels.Labels{
@@ -65,6 +68,11 @@ func c05Scenarios() []c05Scenario {
 		{Name: "chunkcut-mmap-1q", Pre: pre3, Txns: []c05Txn{{"A", []string{"s1", "s2"}, 20, 100, false}}, Queriers: 1, Mmap: true},
 		{Name: "1txn-2q", Pre: pre3[:1], Txns: []c05Txn{{"A", []string{"s1", "s2"}, 20, 100, false}}, Queriers: 2},
 		{Name: "2txn-shared-mmap-1q", Pre: pre3, Txns: []c05Txn{{"A", []string{"s1", "s2"}, 20, 100, false}, {"B", []string{"s2", "s3"}, 21, 200, false}}, Queriers: 1, Mmap: true},
+		// three appenders and two queriers, spawned in the order L, q0, A2, q1, X: with 2 preemptions an
+		// OLD reader (created while L is still open) is still reading after a NEWER reader was opened
+		// and a later appender X committed to a subset of L's series (exercises the isolation low
+		// watermark with more than one open reader). Thorough tier only (large space).
+		{Name: "3txn-2q-staggered", Pre: pre3[:1], Txns: []c05Txn{{"L", []string{"s1", "s2"}, 20, 100, false}, {"A2", []string{"s3"}, 21, 200, false}, {"X", []string{"s1"}, 22, 300, false}}, Queriers: 2, Staggered: true, ThoroughOnly: true},
 	}
 }
 
@@ -160,17 +168,25 @@ func c05Body(sc c05Scenario, obs *c05Obs) func() {
 			qo.seen = c05Drain(q, &qo.err)
 			q.Close()
 		}
+		nq := 0
+		spawnQ := func() {
+			qo := &c05QObs{}
+			obs.q = append(obs.q, qo)
+			vsched.GoNamed(fmt.Sprintf("q%d", nq), func() { query(qo) })
+			nq++
+		}
 		for _, tx := range sc.Txns {
 			tx := tx
 			vsched.GoNamed("txn-"+tx.Name, func() { runTxn(tx) })
+			if sc.Staggered && nq < sc.Queriers {
+				spawnQ()
+			}
 		}
 		if sc.Mmap {
 			vsched.GoNamed("mmap", func() { h.mmapHeadChunks() })
 		}
-		for i := 0; i < sc.Queriers; i++ {
-			qo := &c05QObs{}
-			obs.q = append(obs.q, qo)
-			vsched.GoNamed(fmt.Sprintf("q%d", i), func() { query(qo) })
+		for nq < sc.Queriers {
+			spawnQ()
 		}
 		vsched.Join()
 		// final contents (everything finished)
@@ -412,6 +428,9 @@ func TestVerifC05(t *testing.T) {
 	deadline := time.Now().Add(time.Duration(vx.Pick(r, 80, 1300)) * time.Second)
 	for si, sc := range scs {
 		if r.NShards > 1 && si%r.NShards != r.Shard {
+			continue
+		}
+		if sc.ThoroughOnly && r.Quick() {
 			continue
 		}
 		outcomes := map[string]int{}
